@@ -1,0 +1,101 @@
+//go:build verif
+
+// Contracts for the deductive verification in /verif (govc). Comment-only:
+// with the build tag off this file is not compiled, with it on it declares nothing.
+package proxy
+
+// ---------------------------------------------------------------------------
+// C17: the language server's document copy tracks the editor.
+//
+// The document is a list of lines L (view: Lines). An LSP range with clamped
+// start (sl, sc) and end (el, ec) replaced by the text whose lines are W
+// (W = Split(text, "\n"), len(W) >= 1) yields splice(L, sl, sc, el, ec, W).
+
+//@ spec splice(L, sl, sc, el, ec, W) = ite(len(W) == 1,
+//@     concat(L[:sl], seq(L[sl][:sc] + W[0] + L[el][ec:]), L[el+1:]),
+//@     concat(L[:sl], seq(L[sl][:sc] + W[0]), W[1:len(W)-1], seq(W[len(W)-1] + L[el][ec:]), L[el+1:]))
+
+// Clamping of a position to the document, as the property states it: a line
+// beyond the last line means the end of the last line, a character beyond the
+// end of its line means the end of that line.
+//@ spec clampLine(L, p) = ite(p.Line >= len(L), len(L)-1, p.Line)
+//@ spec clampChar(L, p) = ite(p.Line >= len(L), len(L[len(L)-1]), min(p.Character, len(L[p.Line])))
+//@ spec posLE(al, ac, bl, bc) = al < bl || (al == bl && ac <= bc)
+//@ spec sizeOK(L) = len(L) >= 1 && len(L) < 1<<31 && forall(k, 0, len(L), len(L[k]) < 1<<31)
+
+//@ func (*Document) LineLengths [C17]
+//@   requires d != nil
+//@   ensures lens == lengths(d.Lines)
+//@   loop 1 invariant len(lens) == len(d.Lines) && forall(k, 0, i, lens[k] == len(d.Lines[k]))
+
+//@ func (*Document) Len [C17]
+//@   requires d != nil && len(d.Lines) >= 1
+//@   ensures line == len(d.Lines) && col == len(d.Lines[len(d.Lines)-1])
+
+//@ func (*Document) DeleteLines [C17]
+//@   requires d != nil && 0 <= i && i <= j && j <= len(d.Lines)
+//@   modifies d.Lines
+//@   ensures d.Lines == concat(old(d.Lines)[:i], old(d.Lines)[j:])
+
+//@ func (*Document) InsertLines [C17]
+//@   requires d != nil && 0 <= i && i <= len(d.Lines)
+//@   modifies d.Lines
+//@   ensures d.Lines == concat(old(d.Lines)[:i], withLines, old(d.Lines)[i:])
+
+//@ func (*Document) Delete [C17]
+//@   requires d != nil
+//@   requires 0 <= fromLine && fromLine <= toLine && toLine < len(d.Lines)
+//@   requires 0 <= fromCol && fromCol <= len(d.Lines[fromLine]) && 0 <= toCol && toCol <= len(d.Lines[toLine])
+//@   requires fromLine < toLine || fromCol <= toCol
+//@   modifies d.Lines
+//@   ensures d.Lines == splice(old(d.Lines), fromLine, fromCol, toLine, toCol, seq(""))
+
+//@ func (*Document) Insert [C17]
+//@   requires d != nil
+//@   requires 0 <= line && line < len(d.Lines) && 0 <= col && col <= len(d.Lines[line]) && len(lines) >= 1
+//@   modifies d.Lines, lines
+//@   ensures d.Lines == splice(old(d.Lines), line, col, line, col, old(lines))
+
+//@ func (*Document) Overwrite [C17]
+//@   requires d != nil
+//@   requires 0 <= fromLine && fromLine <= toLine && toLine < len(d.Lines)
+//@   requires 0 <= fromCol && fromCol <= len(d.Lines[fromLine]) && 0 <= toCol && toCol <= len(d.Lines[toLine])
+//@   requires fromLine < toLine || fromCol <= toCol
+//@   requires len(lines) >= 1
+//@   modifies d.Lines, lines
+//@   ensures d.Lines == splice(old(d.Lines), fromLine, fromCol, toLine, toCol, old(lines))
+
+//@ func (*Document) normalize [C17]
+//@   requires d != nil && sizeOK(d.Lines)
+//@   modifies *r
+//@   ensures implies(r != nil, r.Start.Line == clampLine(d.Lines, old(r.Start)) && r.Start.Character == clampChar(d.Lines, old(r.Start)))
+//@   ensures implies(r != nil, r.End.Line == clampLine(d.Lines, old(r.End)) && r.End.Character == clampChar(d.Lines, old(r.End)))
+
+//@ func (*Document) isWholeDocument [C17]
+//@   inline
+//@ func (*Document) isInsert [C17]
+//@   inline
+//@ func (*Document) isDelete [C17]
+//@   inline
+//@ func (*Document) isOverwrite [C17]
+//@   inline
+
+// The top-level contract, taken from the property statement: a nil range
+// replaces the document; otherwise the clamped range is replaced by the text.
+//@ func (*Document) Apply [C17]
+//@   requires d != nil && sizeOK(d.Lines)
+//@   requires r == nil || posLE(clampLine(d.Lines, r.Start), clampChar(d.Lines, r.Start), clampLine(d.Lines, r.End), clampChar(d.Lines, r.End))
+//@   modifies d.Lines, *r
+//@   ensures implies(r == nil, d.Lines == split(with, "\n"))
+//@   ensures implies(r != nil, d.Lines == splice(old(d.Lines),
+//@       clampLine(old(d.Lines), old(r.Start)), clampChar(old(d.Lines), old(r.Start)),
+//@       clampLine(old(d.Lines), old(r.End)), clampChar(old(d.Lines), old(r.End)), split(with, "\n")))
+//@   ensures len(d.Lines) >= 1
+
+//@ func (*Document) Replace [C17]
+//@   requires d != nil
+//@   modifies d.Lines
+//@   ensures d.Lines == split(with, "\n") && len(d.Lines) >= 1
+
+//@ func NewDocument [C17]
+//@   ensures result != nil && result.Lines == split(s, "\n") && len(result.Lines) >= 1
